@@ -182,6 +182,14 @@ class CodeBlock(Token):
     def __eq__(self, rhs):
         return isinstance(rhs, type(self)) and self.insns == rhs.insns
 
+    def resolve(self, state):
+        # A code block was written where a value is expected, e.g. '.word 1 { nop }'
+        reports.error(
+            "unexpected-code-block",
+            (self.ctx_start, self.ctx_end, "A code block cannot be used as a value.")
+        )
+        raise reports.RecoverableError("Code block used as a value")
+
 
 class AngleBracketedChar(ExpressionToken):
     def __init__(self, ctx_start, ctx_end, expr):
